@@ -22,6 +22,7 @@ import (
 	"strconv"
 	"strings"
 	"sync"
+	"unicode"
 	"unicode/utf8"
 
 	"github.com/goccy/go-yaml"
@@ -712,6 +713,10 @@ func yamlUnprintable(s string) bool {
 			if _, size := utf8.DecodeRuneInString(s[i:]); size == 1 {
 				return true
 			}
+		case !unicode.IsPrint(r):
+			// The emitter escapes these also inside single quotes, where a
+			// backslash is literal text.
+			return true
 		}
 	}
 	return false
